@@ -151,6 +151,7 @@ theorem pbc_rwFlush (env : Env) (S0 : HMap) (st : Nat) (s : St) (h : PBC S0 st s
 theorem pbc_step (env : Env) (S0 : HMap) (st : Nat) (s : St) (a : Act) (h : PBC S0 st s) : PBC S0 st (step env s a) := by
   cases a with
   | add k v => exact h
+  | setFirst k v => exact h
   | status c => exact pbc_writeHeader S0 st s c h
   | write p => exact pbc_rwWrite env S0 st s p h
   | flush => exact Or.inr (pbc_rwFlush env S0 st s h)
@@ -218,6 +219,10 @@ theorem pa_finish (env : Env) (acts : List Act) (m : HMap) (s : St) (h : PA m s)
     | add k v =>
       have h' : PA (hadd m k v) (step env s (.add k v)) := ⟨h.1, h.2.1, h.2.2.1, by simp [step, h.2.2.2.1], h.2.2.2.2⟩
       have := ih (hadd m k v) _ h'
+      simpa [finish, hdrAdds, statusOf] using this
+    | setFirst k v =>
+      have h' : PA (hsetFirst m k v) (step env s (.setFirst k v)) := ⟨h.1, h.2.1, h.2.2.1, by simp [step, h.2.2.2.1], h.2.2.2.2⟩
+      have := ih (hsetFirst m k v) _ h'
       simpa [finish, hdrAdds, statusOf] using this
     | status c =>
       have hb := pa_writeHeader m s c h
